@@ -1,7 +1,7 @@
 #!/bin/sh
 # sweep: every seeded change against its property's quick check
 cd /verif
-for d in seeded/*/ /tmp/mut2/*-out/C /tmp/mut2/*-out/D; do
+for d in seeded/*/; do
   [ -f $d/patch.diff ] || continue
   case $d in seeded/*) n=$(basename $d); id=${n%-*};; *) id=$(basename $(dirname $d)); id=${id%-out}; n=$id-$(basename $d);; esac
   r=$(tools/mutest.sh $PWD/$d/patch.diff $id 2>&1 | grep -E "violation\(s\)|apply|uncommitted")
